@@ -4,6 +4,8 @@ package main
 // A real bus server (StandAloneServer) behind a harness-owned listener; the harness writes raw
 // frames on in-memory streams, owns the Authenticator (scripted table, can be held inside a
 // call) and two probe services (ids 1 and 2) that count invocations per connection.
+// Then the same with real servers (StandAloneServer and NewServer) on net.Listen of every
+// transport (unix://, tcp://, tcps://, pipe://) and connections made by net.DialEndPoint.
 
 import (
 	"bytes"
@@ -12,6 +14,8 @@ import (
 	"fmt"
 	"io"
 	"log"
+	"os"
+	"path/filepath"
 	"strings"
 	"sync"
 	"time"
@@ -26,6 +30,7 @@ func init() { props["C06"] = runC06 }
 
 const (
 	c06BarrierObj = 0x7777
+	c06FlushObj   = 0x7778
 	c06SyncAction = 0x7777
 	c06Deadline   = 5 * time.Second
 )
@@ -33,7 +38,7 @@ const (
 // ---------- events ----------
 
 type c06Event struct {
-	kind                  int // 0 frame, 1 close, 2 invoke, 3 auth, 9 harness timeout
+	kind                  int // 0 frame, 1 close, 2 invoke, 3 auth, 8 answer to a flush frame (not an observation), 9 harness timeout
 	conn                  int // script-local connection id
 	ty, svc, obj, act, id uint32
 	body                  int
@@ -165,54 +170,164 @@ type c06Probe struct {
 func (p *c06Probe) Activate(a bus.Activation) error { return nil }
 func (p *c06Probe) OnTerminate()                    {}
 func (p *c06Probe) Receive(m *net.Message, from bus.Channel) error {
-	name := from.EndPoint().String()
-	if c, ok := p.h.connOf(name); ok {
+	invoke := func(c int) {
 		p.h.log.add(c06Event{kind: 2, conn: c, ty: uint32(m.Header.Type), svc: m.Header.Service, obj: m.Header.Object,
 			act: m.Header.Action, id: m.Header.ID, payload: append([]byte(nil), m.Payload...)})
+	}
+	if p.h.mode == "mem" {
+		if c, ok := p.h.connOf(from.EndPoint().String()); ok {
+			invoke(c)
+			return nil
+		}
+		// the harness's own pre-authenticated local client: barrier
+		if m.Header.Action == c06SyncAction {
+			return from.SendReply(m, nil)
+		}
 		return nil
 	}
-	// the harness's own pre-authenticated local client: barrier
+	// real transports: the server's name for a connection (peer address, descriptor numbers) is
+	// not known to the dialling side; the message ids of a script are unique and name the
+	// connection the frame was sent on.  No script frame uses the barrier action.
 	if m.Header.Action == c06SyncAction {
 		return from.SendReply(m, nil)
 	}
+	c, ok := p.h.connOfID(m.Header.ID)
+	if !ok {
+		c = c06UnknownConn // a frame nobody sent on a script connection: never matches, never presented
+	}
+	invoke(c)
 	return nil
 }
 
 // ---------- harness ----------
 
-type c06Harness struct {
-	srv   bus.Server
-	lis   *ahListener
-	log   *c06Log
-	auth  *c06Auth
-	local bus.Client
-	mu    sync.Mutex
-	names map[string]int // stream name -> script-local id
-	conns map[int]*ahStream
-	nextG int
-	gen   int
-	notes []string
+// c06Conn is what a script needs from a connection to the server: the harness-owned in-memory
+// stream (ahStream) or a connection dialled through a real transport (c06WireConn).
+type c06Conn interface {
+	Inject(b []byte) // bytes of complete frames (or of a header that is not one)
+	IsShut() bool    // the server has closed the connection
+	PeerClose()      // the harness hangs up
 }
 
-func newC06Harness() (*c06Harness, error) {
-	h := &c06Harness{lis: newAhListener(), log: &c06Log{sig: make(chan struct{}, 1)}, names: map[string]int{}, conns: map[int]*ahStream{}}
-	h.auth = &c06Auth{log: h.log, occSig: make(chan struct{}, 1), table: map[[2]string]bool{}}
-	srv, err := bus.StandAloneServer(h.lis, h.auth, bus.PrivateNamespace())
-	if err != nil {
-		return nil, err
+const c06UnknownConn = 9999
+
+type c06Harness struct {
+	mode    string // "mem": harness-owned listener and streams; else a transport of bus/net
+	ctor    string // "StandAloneServer" or "NewServer"
+	addr    string // real transports: the address to dial
+	dir     string // real transports: scratch directory of the socket files
+	srv     bus.Server
+	lis     *ahListener
+	log     *c06Log
+	auth    *c06Auth
+	local   bus.Client
+	mu      sync.Mutex
+	names   map[string]int // stream name -> script-local id
+	conns   map[int]c06Conn
+	idConn  map[uint32]int // real transports: message id -> script-local id
+	nextG   int
+	gen     int
+	flushID uint32
+	notes   []string
+}
+
+// c06Transports: every scheme net.Listen / net.DialEndPoint know.
+var c06Transports = []string{"unix", "tcp", "tcps", "pipe"}
+
+// c06TransportServers: every transport with both constructors of a listening server.
+func c06TransportServers() [][2]string {
+	var out [][2]string
+	for _, tr := range c06Transports {
+		for _, ctor := range []string{"StandAloneServer", "NewServer"} {
+			out = append(out, [2]string{tr, ctor})
+		}
 	}
-	h.srv = srv
-	for i := uint32(1); i <= 2; i++ {
-		s, err := srv.NewService(fmt.Sprintf("probe%d", i), &c06Probe{svc: i, h: h})
+	return out
+}
+
+// newC06Harness: ctor names the constructor of the server, bus.StandAloneServer or bus.NewServer
+// (the latter takes its first service, here probe 1, as an argument).
+func newC06Harness(mode, ctor string) (*c06Harness, error) {
+	h := &c06Harness{mode: mode, ctor: ctor, log: &c06Log{sig: make(chan struct{}, 1)}, names: map[string]int{}, conns: map[int]c06Conn{}, idConn: map[uint32]int{}}
+	h.auth = &c06Auth{log: h.log, occSig: make(chan struct{}, 1), table: map[[2]string]bool{}}
+	var lis net.Listener
+	if mode == "mem" {
+		h.lis = newAhListener()
+		lis = h.lis
+	} else {
+		dir, err := os.MkdirTemp("", "qvc06")
 		if err != nil {
 			return nil, err
 		}
+		h.dir = dir
+		var addr string
+		switch mode {
+		case "unix", "pipe":
+			addr = mode + "://" + filepath.Join(dir, "s.sock")
+		case "tcp", "tcps":
+			addr = mode + "://127.0.0.1:0" // the port is chosen by the operating system
+		default:
+			return nil, fmt.Errorf("unknown transport %s", mode)
+		}
+		l, err := net.Listen(addr)
+		if err != nil {
+			os.RemoveAll(dir)
+			return nil, fmt.Errorf("net.Listen(%s): %v", addr, err)
+		}
+		h.addr = addr
+		if mode == "tcp" || mode == "tcps" {
+			a := net.VerifListenerAddr(l)
+			if a == "" {
+				l.Close()
+				os.RemoveAll(dir)
+				return nil, fmt.Errorf("net.Listen(%s): no bound address", addr)
+			}
+			h.addr = mode + "://" + a
+		}
+		lis = l
+	}
+	var srv bus.Server
+	var err error
+	first := uint32(1)
+	if ctor == "NewServer" {
+		srv, err = bus.NewServer(lis, h.auth, bus.PrivateNamespace(), &c06Probe{svc: 1, h: h})
+		first = 2
+	} else {
+		srv, err = bus.StandAloneServer(lis, h.auth, bus.PrivateNamespace())
+	}
+	if err != nil {
+		lis.Close()
+		h.cleanup()
+		return nil, err
+	}
+	h.srv = srv
+	for i := first; i <= 2; i++ {
+		s, err := srv.NewService(fmt.Sprintf("probe%d", i), &c06Probe{svc: i, h: h})
+		if err != nil {
+			h.close()
+			return nil, err
+		}
 		if s.ServiceID() != i {
+			h.close()
 			return nil, fmt.Errorf("probe service got id %d, want %d", s.ServiceID(), i)
 		}
 	}
 	h.local = srv.Client()
 	return h, nil
+}
+
+func (h *c06Harness) cleanup() {
+	if h.dir != "" {
+		os.RemoveAll(h.dir)
+	}
+}
+
+func (h *c06Harness) close() {
+	h.resetConns()
+	if h.srv != nil {
+		h.srv.Terminate()
+	}
+	h.cleanup()
 }
 
 func (h *c06Harness) connOf(name string) (int, bool) {
@@ -222,12 +337,20 @@ func (h *c06Harness) connOf(name string) (int, bool) {
 	return c, ok
 }
 
+func (h *c06Harness) connOfID(id uint32) (int, bool) {
+	h.mu.Lock()
+	defer h.mu.Unlock()
+	c, ok := h.idConn[id]
+	return c, ok
+}
+
 // resetConns forgets the connections of the previous script (closing them) .
 func (h *c06Harness) resetConns() {
 	h.mu.Lock()
 	old := h.conns
-	h.conns = map[int]*ahStream{}
+	h.conns = map[int]c06Conn{}
 	h.names = map[string]int{}
+	h.idConn = map[uint32]int{}
 	h.gen++
 	h.mu.Unlock()
 	for _, s := range old {
@@ -235,35 +358,133 @@ func (h *c06Harness) resetConns() {
 	}
 }
 
-func (h *c06Harness) conn(c int) (*ahStream, error) {
+// c06StreamName: what the server reads as the name of a harness-owned stream.  The name of a
+// stream is its peer's address as the transport prints it; the harness streams take the shapes
+// the transports of bus/net produce (descriptor pair of a pipe:// connection, host:port, socket
+// path), besides a name of no transport.  Whatever an accepted stream is called, it is a remote
+// peer.
+func c06StreamName(g int) string {
+	switch g % 5 {
+	case 1:
+		return fmt.Sprintf("pipe://%d:%d", 2*g+7, 2*g+8)
+	case 2:
+		return fmt.Sprintf("tcp://127.0.0.1:%d", 20000+g)
+	case 3:
+		return fmt.Sprintf("unix:///tmp/qv-c06-%d", g)
+	case 4:
+		return fmt.Sprintf("tcp://[::1]:%d", 20000+g)
+	}
+	return fmt.Sprintf("ah%d", g)
+}
+
+func (h *c06Harness) conn(c int) (c06Conn, error) {
 	h.mu.Lock()
 	if s, ok := h.conns[c]; ok {
 		h.mu.Unlock()
 		return s, nil
 	}
 	h.nextG++
-	name := fmt.Sprintf("ah%d", h.nextG)
-	s := newAhStream(name)
-	h.conns[c] = s
-	h.names[name] = c
+	name := c06StreamName(h.nextG)
 	gen := h.gen
 	h.mu.Unlock()
 	current := func() bool { h.mu.Lock(); defer h.mu.Unlock(); return h.gen == gen }
-	s.onFrame = func(m *net.Message) {
+	onFrame := func(m *net.Message) {
 		if current() {
 			h.log.add(h.frameEvent(c, m))
 		}
 	}
-	s.onClose = func() {
+	onClose := func() {
 		if current() {
 			h.log.add(c06Event{kind: 1, conn: c})
 		}
 	}
+	if h.mode != "mem" {
+		w, err := c06Dial(h.addr, onFrame, onClose)
+		if err != nil {
+			return nil, err
+		}
+		h.mu.Lock()
+		h.conns[c] = w
+		h.mu.Unlock()
+		return w, nil
+	}
+	s := newAhStream(name)
+	h.mu.Lock()
+	h.conns[c] = s
+	h.names[name] = c
+	h.mu.Unlock()
+	s.onFrame = onFrame
+	s.onClose = onClose
 	if err := h.lis.Offer(s, c06Deadline); err != nil {
 		return nil, err
 	}
 	return s, nil
 }
+
+// ---------- connections through the real transports ----------
+
+// c06WireConn: a connection made by net.DialEndPoint to the address the server listens on
+// (net.Listen): frames go out through EndPoint.Send, everything the server writes comes in
+// through a handler that takes every frame; the handler's queue is closed when reading fails,
+// i.e. when the server has closed the connection.
+type c06WireConn struct {
+	ep   net.EndPoint
+	mu   sync.Mutex
+	shut bool
+}
+
+func c06Dial(addr string, onFrame func(*net.Message), onClose func()) (*c06WireConn, error) {
+	type dialed struct {
+		ep  net.EndPoint
+		err error
+	}
+	ch := make(chan dialed, 1)
+	go func() { ep, err := net.DialEndPoint(addr); ch <- dialed{ep, err} }()
+	var d dialed
+	select {
+	case d = <-ch:
+	case <-time.After(c06Deadline):
+		go func() {
+			if d := <-ch; d.err == nil {
+				d.ep.Close()
+			}
+		}()
+		return nil, fmt.Errorf("net.DialEndPoint(%s) did not return", addr)
+	}
+	if d.err != nil {
+		return nil, fmt.Errorf("net.DialEndPoint(%s): %v", addr, d.err)
+	}
+	w := &c06WireConn{ep: d.ep}
+	// the server never speaks first: nothing is lost between the dial and this registration
+	q := make(chan *net.Message, 1024)
+	d.ep.MakeHandler(func(*net.Header) (bool, bool) { return true, true }, q, nil)
+	go func() {
+		for m := range q {
+			onFrame(m)
+		}
+		w.mu.Lock()
+		w.shut = true
+		w.mu.Unlock()
+		onClose()
+	}()
+	return w, nil
+}
+
+// Inject sends the 28 header bytes as they are (a header the server's reader refuses included)
+// followed by the payload.
+func (w *c06WireConn) Inject(b []byte) {
+	if len(b) < net.HeaderSize || w.IsShut() {
+		return
+	}
+	le := binary.LittleEndian
+	hdr := net.Header{Magic: binary.BigEndian.Uint32(b[0:4]), ID: le.Uint32(b[4:8]), Size: le.Uint32(b[8:12]),
+		Version: le.Uint16(b[12:14]), Type: b[14], Flags: b[15], Service: le.Uint32(b[16:20]), Object: le.Uint32(b[20:24]),
+		Action: le.Uint32(b[24:28])}
+	w.ep.Send(net.Message{Header: hdr, Payload: b[net.HeaderSize:]}) // fails once the server has hung up
+}
+
+func (w *c06WireConn) IsShut() bool { w.mu.Lock(); defer w.mu.Unlock(); return w.shut }
+func (w *c06WireConn) PeerClose()   { w.ep.Close() }
 
 // error classes, by comparison with the package's own error values (never by literal text)
 func c06ErrClass(msg string) int {
@@ -286,6 +507,9 @@ func (h *c06Harness) frameEvent(c int, m *net.Message) c06Event {
 	e := c06Event{kind: 0, conn: c, ty: uint32(m.Header.Type), svc: m.Header.Service, obj: m.Header.Object,
 		act: m.Header.Action, id: m.Header.ID, body: 99}
 	e.barrier = m.Header.Object == c06BarrierObj && m.Header.Service == 0
+	if m.Header.Object == c06FlushObj && m.Header.Service == 0 {
+		e.kind = 8
+	}
 	switch m.Header.Type {
 	case net.Error:
 		v, err := value.NewValue(bytes.NewReader(m.Payload))
@@ -317,7 +541,7 @@ func (h *c06Harness) note(s string) {
 
 // barrier on connection c: a Call to service 0, object 0x7777 is answered by the connection's
 // consumer goroutine itself (ObjectNotFound) once everything before it has been handled.
-func (h *c06Harness) barrier(c int, s *ahStream, k uint32, from int) {
+func (h *c06Harness) barrier(c int, s c06Conn, k uint32, from int) {
 	if s.IsShut() {
 		return
 	}
@@ -328,6 +552,38 @@ func (h *c06Harness) barrier(c int, s *ahStream, k uint32, from int) {
 	if !ok {
 		h.log.add(c06Event{kind: 9, conn: c})
 		h.note(fmt.Sprintf("barrier %d on connection %d timed out", k, c))
+	}
+}
+
+// flush (real transports): what the server wrote reaches the harness through a socket and the
+// reading goroutine of the dialled endpoint, i.e. later than the server's Write returned.  After
+// the server is quiescent (settle), a Call to service 0 / object 0x7778 goes out on every open
+// connection: its answer (ObjectNotFound, by the connection's consumer goroutine, which is idle)
+// is written after everything else and arrives after it.  These answers are not observations:
+// the frame finds an empty queue, changes nothing and is left out of the case.
+func (h *c06Harness) flush() {
+	h.mu.Lock()
+	conns := map[int]c06Conn{}
+	for c, s := range h.conns {
+		conns[c] = s
+	}
+	h.mu.Unlock()
+	for c, s := range conns {
+		if s.IsShut() {
+			continue
+		}
+		h.flushID++
+		id := 0x7000000 + h.flushID
+		from := h.log.len()
+		s.Inject(ahEncode(net.Call, 0, c06FlushObj, 0, id, nil))
+		c := c
+		ok := h.log.waitFor(from, c06Deadline, func(e c06Event) bool {
+			return e.conn == c && ((e.kind == 8 && e.id == id) || e.kind == 1)
+		})
+		if !ok {
+			h.log.add(c06Event{kind: 9, conn: c})
+			h.note(fmt.Sprintf("flush frame on connection %d was not answered", c))
+		}
 	}
 }
 
@@ -389,6 +645,15 @@ func (f c06Frame) raw() []byte {
 func (h *c06Harness) runScript(table [][2]string, script []c06Action) [][]c06Event {
 	h.resetConns()
 	h.auth.setTable(table)
+	if h.mode != "mem" {
+		h.mu.Lock()
+		for _, a := range script {
+			for _, f := range a.frames {
+				h.idConn[f.id] = a.conn
+			}
+		}
+		h.mu.Unlock()
+	}
 	var obs [][]c06Event
 	for k, a := range script {
 		mark := h.log.len()
@@ -406,9 +671,14 @@ func (h *c06Harness) runScript(table [][2]string, script []c06Action) [][]c06Eve
 		case 5:
 			// the consumer goroutine is held inside its first answer (the harness stream blocks
 			// that Write) until the reader has queued every other frame of the burst
-			s, err := h.conn(a.conn)
+			cn, err := h.conn(a.conn)
 			if err != nil {
 				h.note(err.Error())
+				break
+			}
+			s, ok := cn.(*ahStream)
+			if !ok {
+				h.note("queued burst: only on harness-owned streams")
 				break
 			}
 			hit, release := s.GateNextWrite()
@@ -442,7 +712,7 @@ func (h *c06Harness) runScript(table [][2]string, script []c06Action) [][]c06Eve
 				break
 			}
 			if !s.IsShut() {
-				s.Inject(bytes.Repeat([]byte{0x55}, net.HeaderSize))
+				s.Inject(c06Garbage())
 				if !h.log.waitFor(mark, c06Deadline, func(e c06Event) bool { return e.conn == a.conn && e.kind == 1 }) {
 					h.log.add(c06Event{kind: 9, conn: a.conn})
 					h.note("garbage did not close the connection")
@@ -454,10 +724,47 @@ func (h *c06Harness) runScript(table [][2]string, script []c06Action) [][]c06Eve
 			h.auth.Release()
 		}
 		h.settle()
-		obs = append(obs, h.log.since(mark))
+		if h.mode != "mem" {
+			h.flush()
+		}
+		var evs []c06Event
+		for _, e := range h.log.since(mark) {
+			if e.kind != 8 {
+				evs = append(evs, e)
+			}
+		}
+		obs = append(obs, evs)
 	}
 	h.auth.Release()
 	return obs
+}
+
+// c06Garbage: 28 bytes that are not a header (wrong magic, version, type); the size field is 0
+// so that the bytes can also be sent as a "message" through an EndPoint.
+func c06Garbage() []byte {
+	b := bytes.Repeat([]byte{0x55}, net.HeaderSize)
+	copy(b[8:12], []byte{0, 0, 0, 0})
+	return b
+}
+
+// c06WireScript: can the script run on a real transport (no write gate there), with message
+// ids that name the connection; ids are renumbered when they do not.
+func c06WireScript(script []c06Action) ([]c06Action, bool) {
+	out := make([]c06Action, len(script))
+	n := uint32(0)
+	for i, a := range script {
+		if a.kind == 5 {
+			return nil, false
+		}
+		b := a
+		b.frames = append([]c06Frame(nil), a.frames...)
+		for j := range b.frames {
+			n++
+			b.frames[j].id = 0x4000 + 2*n
+		}
+		out[i] = b
+	}
+	return out, true
 }
 
 // ---------- payloads ----------
@@ -628,7 +935,7 @@ func c06AuthPayload(rng *hx.Rng, table [][2]string, force int) ([]byte, string) 
 	}
 	kind := force
 	if kind < 0 {
-		kind = rng.Intn(17)
+		kind = rng.Intn(18)
 	}
 	switch kind {
 	case 0, 1, 2:
@@ -691,6 +998,23 @@ func c06AuthPayload(rng *hx.Rng, table [][2]string, force int) ([]byte, string) 
 	case 15:
 		es := creds(good[0], good[1])
 		return append(c06Map(len(es), es), rng.Bytes(1+rng.Intn(6))...), "trailing"
+	case 16:
+		// an accepted pair with white space around it is another pair
+		u, t := good[0], good[1]
+		switch rng.Intn(5) {
+		case 0:
+			t += "\n"
+		case 1:
+			u += " "
+		case 2:
+			u, t = " "+u, " "+t+" "
+		case 3:
+			t = "\t" + t
+		default:
+			u, t = u+"\r\n", t+"\r\n"
+		}
+		es := withDefaults([]c06Entry{{bus.KeyUser, c06VStr(u)}, {bus.KeyToken, c06VStr(t)}})
+		return c06Map(len(es), es), "padded"
 	default:
 		return nil, "empty"
 	}
@@ -756,7 +1080,7 @@ func c06EventTerm(e c06Event) string {
 	return "EClose 99999%N" // harness timeout: never matches the model
 }
 
-func c06CaseTerm(table [][2]string, script []c06Action, obs [][]c06Event) string {
+func c06CaseTerm(perconn bool, table [][2]string, script []c06Action, obs [][]c06Event) string {
 	var tb, sc, ob []string
 	for _, p := range table {
 		tb = append(tb, fmt.Sprintf("(%s, %s)", hx.Hex([]byte(p[0])), hx.Hex([]byte(p[1]))))
@@ -781,7 +1105,7 @@ func c06CaseTerm(table [][2]string, script []c06Action, obs [][]c06Event) string
 		}
 		ob = append(ob, fmt.Sprintf("(%s, %s, %s)", hx.List(ord), hx.List(mb), hx.List(inv)))
 	}
-	return fmt.Sprintf("{| cc_accept := %s; cc_script := %s; cc_obs := %s |}", hx.List(tb), hx.List(sc), hx.List(ob))
+	return fmt.Sprintf("{| cc_accept := %s; cc_perconn := %s; cc_script := %s; cc_obs := %s |}", hx.List(tb), hx.Bool(perconn), hx.List(sc), hx.List(ob))
 }
 
 // ---------- oracle: the property on the implementation's own behaviour ----------
@@ -1065,7 +1389,7 @@ func c06Nontrivial(script []c06Action) bool {
 func runC06(res *hx.Result, rng *hx.Rng, tier string, outdir string) {
 	log.SetOutput(io.Discard)
 	res.Rule = "script contains a frame to a service other than 0 and at least one authenticate attempt"
-	h, err := newC06Harness()
+	h, err := newC06Harness("mem", "StandAloneServer")
 	if err != nil {
 		res.Fail("harness", "cannot start a bus server on the harness listener: "+err.Error())
 		return
@@ -1075,30 +1399,37 @@ func runC06(res *hx.Result, rng *hx.Rng, tier string, outdir string) {
 		c06Name(b)
 	}
 	cases.Extra = append(cases.Extra, c06NamedDefs...)
-	nscripts := 400
+	nscripts, nwire := 400, 15
 	if tier == "thorough" {
-		nscripts = 8000
+		nscripts, nwire = 8000, 250
 	}
-	runOne := func(table [][2]string, script []c06Action, tag string) {
-		obs := h.runScript(table, script)
-		desc := c06ScriptDesc(table, script)
-		if v := c06Oracle(table, script, obs); v != "" {
-			res.Fail("C06-oracle", v+" || "+desc)
-		}
-		res.Count(desc, c06Nontrivial(script))
-		res.Dist("script:" + tag)
-		for _, a := range script {
-			for _, f := range a.frames {
-				res.Dist("frame:" + f.desc)
-				res.Dist(fmt.Sprintf("type:%d", f.ty))
+	runOn := func(h *c06Harness) func(table [][2]string, script []c06Action, tag string) {
+		return func(table [][2]string, script []c06Action, tag string) {
+			obs := h.runScript(table, script)
+			desc := c06ScriptDesc(table, script)
+			if h.mode != "mem" {
+				desc = fmt.Sprintf("server bus.%s on net.Listen(\"%s://...\"), connections by net.DialEndPoint; %s", h.ctor, h.mode, desc)
+				tag = h.mode + "-" + h.ctor + "-" + tag
 			}
-			if a.kind >= 2 {
-				res.Dist([]string{"", "", "action:garbage", "action:hold", "action:release", "action:queued-burst"}[a.kind])
+			if v := c06Oracle(table, script, obs); v != "" {
+				res.Fail("C06-oracle", v+" || "+desc)
 			}
+			res.Count(desc, c06Nontrivial(script))
+			res.Dist("script:" + tag)
+			for _, a := range script {
+				for _, f := range a.frames {
+					res.Dist("frame:" + f.desc)
+					res.Dist(fmt.Sprintf("type:%d", f.ty))
+				}
+				if a.kind >= 2 {
+					res.Dist([]string{"", "", "action:garbage", "action:hold", "action:release", "action:queued-burst"}[a.kind])
+				}
+			}
+			res.Sample(desc)
+			cases.Add("cs", c06CaseTerm(h.mode != "mem", table, script, obs), desc)
 		}
-		res.Sample(desc)
-		cases.Add("cs", c06CaseTerm(table, script, obs), desc)
 	}
+	runOne := runOn(h)
 	// fixed scenarios first: the witnesses used in props/C06.v and the seeded-mutation triggers
 	for _, sc := range c06Fixed() {
 		runOne(sc.table, sc.script, "fixed")
@@ -1111,10 +1442,55 @@ func runC06(res *hx.Result, rng *hx.Rng, tier string, outdir string) {
 		c06Exhaustive(runOne)
 		res.Exhaustive = true
 	}
-	cases.Flush()
 	res.Notes = append(res.Notes, h.notes...)
+	h.close()
+	// every transport the server can listen on: the fixed scenarios (all but the queued bursts,
+	// which need the harness stream's write gate) and random scripts, through net.Listen and
+	// net.DialEndPoint.  The model has no notion of transport: a connection accepted from any
+	// listener starts like every other one.
+	for _, tc := range c06TransportServers() {
+		tr, ctor := tc[0], tc[1]
+		w, err := newC06Harness(tr, ctor)
+		if err != nil {
+			res.Fail("harness", fmt.Sprintf("cannot start a server (bus.%s) on a %s:// listener: %v", ctor, tr, err))
+			continue
+		}
+		// the one connection that starts authenticated: the server's own in-process client
+		if _, err := c06CallDeadline(w.local, 1, 1, c06SyncAction); err != nil {
+			res.Fail("harness", fmt.Sprintf("%s:// server (bus.%s): the in-process client (Server.Client) does not reach a service: %v", tr, ctor, err))
+			w.close()
+			continue
+		}
+		run := runOn(w)
+		for _, sc := range c06Fixed() {
+			if script, ok := c06WireScript(sc.script); ok {
+				run(sc.table, script, "fixed")
+			}
+		}
+		for i := 0; i < nwire; i++ {
+			g := &c06Gen{rng: rng, table: c06Tables[rng.Intn(len(c06Tables))], id: 0x400000 + uint32(i)<<8}
+			run(g.table, g.script(), "random")
+		}
+		res.Notes = append(res.Notes, w.notes...)
+		w.close()
+	}
+	cases.Flush()
 	res.Notes = append(res.Notes, "connection/mailbox interleavings are forced through the harness-owned authenticator (hold/release) and barrier frames; the capability map of a connection is read and written by two goroutines without a lock: the model gives it sequentially consistent semantics")
-	h.srv.Terminate()
+}
+
+func c06CallDeadline(cl bus.Client, svc, obj, act uint32) ([]byte, error) {
+	type r struct {
+		b   []byte
+		err error
+	}
+	ch := make(chan r, 1)
+	go func() { b, err := cl.Call(nil, svc, obj, act, nil); ch <- r{b, err} }()
+	select {
+	case x := <-ch:
+		return x.b, x.err
+	case <-time.After(c06Deadline):
+		return nil, fmt.Errorf("no answer within %v", c06Deadline)
+	}
 }
 
 type c06Scenario struct {
@@ -1133,6 +1509,7 @@ func c06Fixed() []c06Scenario {
 	forgedU := c06Map(3, []c06Entry{{bus.KeyState, c06VUint(3)}, {bus.KeyUser, c06VStr("nao")}, {bus.KeyToken, c06VStr("wrong")}})
 	forgedI := c06Map(1, []c06Entry{{bus.KeyState, c06VInt(3)}})
 	wrongT := c06Map(2, []c06Entry{{bus.KeyUser, c06VUint(7)}, {bus.KeyToken, c06VStr("secret")}})
+	padded := c06Map(2, []c06Entry{{bus.KeyUser, c06VStr("nao")}, {bus.KeyToken, c06VStr("secret\n")}})
 	probe := func(ty uint8, id uint32) c06Frame { return fr(ty, 1, 1, 100, id, nil, "probe") }
 	var out []c06Scenario
 	// accepted request, then delivery
@@ -1145,7 +1522,7 @@ func c06Fixed() []c06Scenario {
 	for _, p := range []struct {
 		b []byte
 		d string
-	}{{bad, "auth:bad-token"}, {forgedU, "auth:forged-state-uint"}, {forgedI, "auth:forged-state-int"}, {wrongT, "auth:wrongly-typed-user"}, {nil, "auth:empty"}} {
+	}{{bad, "auth:bad-token"}, {forgedU, "auth:forged-state-uint"}, {forgedI, "auth:forged-state-int"}, {wrongT, "auth:wrongly-typed-user"}, {nil, "auth:empty"}, {padded, "auth:padded"}} {
 		for _, ty := range []uint8{net.Call, net.Post, net.Capability, net.Cancel} {
 			out = append(out, c06Scenario{tb, []c06Action{send(0, fr(ty, 0, 0, 8, 2, p.b, p.d)), send(0, probe(net.Call, 4)), send(0, fr(net.Call, 0, 0, 8, 6, good, "auth:good"))}})
 		}
